@@ -147,6 +147,7 @@ type Cluster struct {
 	Intercept func(c *Conn, hdr *frame.Header, rawBody []byte) bool
 	OptionsMute int32 // when 1, OPTIONS on muted connections are swallowed (always the case); kept for clarity
 	optionsSeen sync.Map // conn id → *int32 count of OPTIONS received
+	ever        sync.Map // peer address → *Conn, for every connection ever accepted
 }
 
 var clusterSeq int32
@@ -340,6 +341,51 @@ func (c *Cluster) KillHosts(rst bool, idxs ...int) int {
 	return len(all)
 }
 
+// KillPooled closes every non-control connection of the given hosts back-to-back.
+func (c *Cluster) KillPooled(rst bool, idxs ...int) int {
+	var all []*Conn
+	for _, i := range idxs {
+		for _, x := range c.Hosts[i-1].Conns() {
+			if !x.Registered {
+				all = append(all, x)
+			}
+		}
+	}
+	c.log.Add(mon.Event{Src: "harness", K: "kill", Note: fmt.Sprintf("pooled hosts=%v rst=%v conns=%d", idxs, rst, len(all))})
+	for _, x := range all {
+		x.Kill(rst)
+	}
+	return len(all)
+}
+
+// ConnByID finds an open connection by its id.
+func (c *Cluster) ConnByID(id int) *Conn {
+	for _, h := range c.Hosts {
+		h.mu.Lock()
+		x := h.conns[id]
+		h.mu.Unlock()
+		if x != nil {
+			return x
+		}
+	}
+	return nil
+}
+
+// ConnByPeerAddr finds the connection whose remote (proxy-side) address is addr.
+func (c *Cluster) ConnByPeerAddr(addr string) *Conn {
+	if v, ok := c.ever.Load(addr); ok {
+		return v.(*Conn)
+	}
+	for _, h := range c.Hosts {
+		for _, x := range h.Conns() {
+			if x.nc.RemoteAddr().String() == addr {
+				return x
+			}
+		}
+	}
+	return nil
+}
+
 // Kill closes the connection (rst: SO_LINGER 0 so the peer sees a reset).
 func (x *Conn) Kill(rst bool) {
 	if !atomic.CompareAndSwapInt32(&x.closed, 0, 1) {
@@ -451,6 +497,7 @@ func (h *Host) accept(ln net.Listener) {
 		}
 		h.conns[x.ID] = x
 		h.mu.Unlock()
+		h.c.ever.Store(nc.RemoteAddr().String(), x)
 		h.c.log.Add(mon.Event{Src: "backend", K: "accept", Host: h.Idx, Conn: x.ID})
 		go x.serve()
 	}
